@@ -331,10 +331,18 @@ def gen(rng, idx, tier):
         stratum = "mirrored_in_one_master"
     support = False
     opts = {}
+    skip_ovf = False
     if func == "compileInterpolatableTTFsFromDS" and rng.random() < 0.2 \
             and overflow_chain_in_sparse(rng, ds):
-        opts["flattenComponents"] = True
-        stratum = "merged_reference_overflow"
+        if rng.random() < 0.5:
+            # merged by flattening: repaired in /repo (the flattened glyph is defined at the
+            # sparse location first), must hold
+            opts["flattenComponents"] = True
+            stratum = "merged_reference_overflow_by_flattening"
+        else:
+            # merged by inlining a non-exported glyph: the listed finding
+            skip_ovf = True
+            stratum = "merged_reference_overflow"
     elif "TTF" in func and rng.random() < 0.35:
         opts["flattenComponents"] = True
         if rng.random() < 0.6 and nested_chain_in_sparse(rng, ds):
@@ -378,9 +386,12 @@ def gen(rng, idx, tier):
         used = [c["base"] for g in ds["ufos"][0]["glyphs"] for c in g["components"]]
         pool = used or names
         skip = [rng.choice(pool)]
-    filt = rng.choice([None, None, "DecomposeTransformedComponentsFilter", "PropagateAnchorsFilter"])
+    if skip_ovf:
+        skip = ["ovf.one"]
+    filt = rng.choice([None, None, "DecomposeTransformedComponentsFilter", "PropagateAnchorsFilter",
+                       "DecomposeComponentsFilter:post"])
     filter_via = "argument"
-    if filt and rng.random() < 0.5:
+    if filt and ":" not in filt and rng.random() < 0.5:
         # the same filter declared in every master's lib (what glyphsLib writes): equal but
         # distinct filter objects per master, which must still act as ONE joint filter
         filter_via = "lib"
@@ -467,7 +478,13 @@ def run(case):
     doc, fonts = build_designspace(ds, case["lib"])
     kw = {k: v for k, v in case["opts"].items() if not k.startswith("_")}
     kw["useProductionNames"] = False
-    if case["filter"] and case.get("filter_via", "argument") == "argument":
+    if case["filter"] and case["filter"].endswith(":post"):
+        # a decomposition that runs AFTER the curve conversion (custom post filter): composites
+        # that are still references then are resolved from converted, reversed masters
+        import ufo2ft.filters as F
+        kw["filters"] = [..., getattr(F, case["filter"][:-5])(pre=False)]
+        bump("post_conversion_decompose_filter_runs")
+    elif case["filter"] and case.get("filter_via", "argument") == "argument":
         import ufo2ft.filters as F
         kw["filters"] = [getattr(F, case["filter"])()]
     elif case["filter"]:
@@ -642,14 +659,21 @@ def classify(v, case):
             and closing_point_coincides_in_some_masters(case["ds"], v["detail"]["glyph"])):
         return "closing_point_on_start_point_in_some_masters_only"
     if (v["mech"] == "decomposed_composite_missing_from_sparse_master"
-            and "TTF" in case["func"] and (case["opts"].get("flattenComponents") or case["skip"])):
+            and "TTF" in case["func"] and case["skip"]):
         # nested references are merged into one (flattening, or inlining a non-exported
         # glyph): when the composed 2x2 part cannot be stored in a TrueType composite the glyf
         # builder decomposes the glyph, in every full master separately - no joint decision and
         # no copy in the sparse master (same root as C13's inlined_reference_overflows_...)
         by = {g["name"]: g for g in case["ds"]["ufos"][case["ds"]["sources"][
             masters.default_source_index(case["ds"])]["ufo"]]["glyphs"]}
-        if composed_2x2_overflows(by, v["detail"]["glyph"]):
+        reach_, todo_ = set(), [v["detail"]["glyph"]]
+        while todo_:
+            n_ = todo_.pop()
+            if n_ in reach_ or n_ not in by:
+                continue
+            reach_.add(n_)
+            todo_.extend(c_["base"] for c_ in by[n_]["components"])
+        if composed_2x2_overflows(by, v["detail"]["glyph"]) and (set(case["skip"]) & reach_):
             return "merged_reference_overflows_f2dot14_decomposed_without_sparse_master"
     if v["mech"] == "structure_differs_across_masters":
         # the decomposition reverses the contours of a mirrored component (negative
